@@ -146,6 +146,30 @@ def run_schema(S, tier, seed, configs, wd, extra_cfg="", machine="view", shapes_
             res["compile_failures"].append({"config": list(cfg), "out": err[-3000:]})
         else:
             res["runs"].append({"config": list(cfg), "stat": r[1], "mismatches": r[0]})
+
+    # ---- code -> spec: recorded random in-order encodings validated by ViewTrace.tla
+    res["traces"] = []
+    if machine == "view" and res["runs"]:
+        comp, std = res["runs"][0]["config"]
+        ok, binary = try_cxx(src, flags=["-std=" + std, "-O1", "-w", '-DVH_DISPATCH="%s"' % disp], compiler=comp,
+                             includes=[inc], deps=[disp], name="view-%s-%s-%s" % (name, comp, std))
+        episodes = 3 if tier == "quick" else 12
+
+        def trace_msg(mi):
+            mname = S["messages"][mi - 1]["name"]
+            tp = os.path.join(sdir, "trace-%s.ndjson" % mname)
+            p = vlib.run([binary, "record", name, mname, "%d" % (seed * 100 + mi), episodes, tp], timeout=300)
+            if p.returncode != 0:
+                return {"msg": mname, "accepted": False, "events": 0, "why": "recording failed: " + (p.stderr or "")[-600:], "trace": tp}
+            nev = sum(1 for _ in open(tp))
+            body = "SDef == %s\nShapesDef == {}\n" % stla
+            acc, r = vlib.validate_trace(None, "ViewTrace", tp, os.path.join(sdir, "tv-%d" % mi),
+                                        "CONSTANT S <- SDef\nCONSTANT MI = %d\nCONSTANT Shapes <- ShapesDef\nCONSTANT Margin = 8\n" % mi,
+                                        body=body, timeout=900)
+            return {"msg": mname, "accepted": acc, "events": nev, "episodes": episodes, "matched": r.depth,
+                    "why": "" if acc else r.raw[-800:], "trace": tp}
+
+        res["traces"] = vlib.parallel(range(1, len(S["messages"]) + 1), trace_msg, nproc=4)
     return res
 
 
@@ -207,6 +231,18 @@ def fold(v, results, want, prop_note):
         for cf in res["compile_failures"]:
             v.violation("compile/%s/%s-%s" % (res["schema"], cf["config"][0], cf["config"][1]),
                         "harness/dispatch does not compile against the generated headers:\n" + cf["out"][-1500:])
+        for t in res.get("traces", []):
+            if t["accepted"]:
+                v.add(traces_validated_against_impl=t.get("episodes", 0))
+                v.part("trace_%s_%s" % (res["schema"], t["msg"]), events=t["events"], episodes=t.get("episodes"))
+            elif want({"aspect": "trace"}, "encode/trace/%s:%s" % (res["schema"], t["msg"])):
+                import shutil
+                keep = os.path.join(vlib.ensure_dir(os.path.join(vlib.REPLAYS, v.pid)), "trace-%s-%s.ndjson" % (res["schema"], t["msg"]))
+                if os.path.exists(t["trace"]):
+                    shutil.copy(t["trace"], keep)
+                v.violation("encode/trace/%s:%s" % (res["schema"], t["msg"]),
+                            "recorded encoding of message %s is not a behaviour of View.tla (matched %s of %s log lines): %s" % (
+                                t["msg"], t.get("matched"), t["events"], t["why"][-500:]), {"trace": keep})
         for r in res["runs"]:
             for m in r["mismatches"]:
                 if want(m["case"], m["sig"]):
